@@ -76,6 +76,9 @@ type violation struct {
 	Decision []dec             `json:"decisions"`
 	Stack    string            `json:"stack,omitempty"`
 	Known    string            `json:"known_finding,omitempty"`
+	Events   []string          `json:"events,omitempty"`
+	Observed []string          `json:"observed,omitempty"`
+	Sched    bool              `json:"schedule_dependent,omitempty"`
 }
 
 type ndValue struct {
@@ -106,15 +109,18 @@ type interpreter struct {
 	pc     []*Term
 	nds    []ndRecord
 
-	threads  []*thread
-	cur      *thread
-	runq     []*thread
-	nextTid  int
-	done     chan pathEnd
-	killed   chan struct{}
-	explore  bool
-	preempts int
-	idleWait []*thread
+	threads      []*thread
+	cur          *thread
+	runq         []*thread
+	nextTid      int
+	done         chan pathEnd
+	killed       chan struct{}
+	explore      bool
+	freeSched    bool
+	everExplored bool
+	atomic       int
+	preempts     int
+	idleWait     []*thread
 
 	steps      int64
 	maxSteps   int64
@@ -125,6 +131,7 @@ type interpreter struct {
 	cuts       []string // parts of the input space deliberately not explored on this path
 	trace      []string
 	observed   []string // observable trace (for translator validation)
+	events     []string // order of stub effects (vstub.Event) on this path
 	mutexes    map[*value]*mutexState
 	wgs        map[*value]*wgState
 	conds      map[*value]*condState
@@ -869,5 +876,7 @@ func (i *interpreter) addViolation(fr *frame, kind, label, msg string, model map
 	i.violations = append(i.violations, violation{
 		Label: label, Kind: kind, Msg: msg, Model: model,
 		Inputs: i.inputsFromModel(model), Decision: append([]dec(nil), i.taken...), Stack: st,
+		Events: append([]string(nil), i.events...), Sched: i.everExplored,
+		Observed: append([]string(nil), i.observed...),
 	})
 }
